@@ -17,6 +17,9 @@ structure Matcher where
   /-- length of the text the action of `rule` sees when the rule matched the first `len` bytes
       (differs from `len` only for trailing-context rules) -/
   headLen : (rule len : Nat) → List UInt8 → Nat
+  /-- number of bytes of the input the automaton can consume before it jams (the look-ahead the
+      generated scanner may have in its buffer when it checks `YYLMAX`, finding F28) -/
+  scan : (sc : Nat) → (bol : Bool) → List UInt8 → Nat := fun _ _ _ => 0
 
 structure Cfg where
   bolNeeded : Bool := false      -- some rule uses `^` (the scanner tracks line starts)
@@ -24,6 +27,8 @@ structure Cfg where
   reentrant : Bool := false      -- line number kept per buffer
   numRules : Nat := 0            -- number of the default rule
   eofScs : List Nat := []        -- start conditions with a user <<EOF>> action
+  yylmax : Nat := 0              -- %array scanners: size of yytext (0: %pointer, no limit)
+  actionOf : Array Nat := #[]    -- rule ↦ the rule whose action it shares ('|' actions); index rule-1
   stackDepthLimit : Nat := 0     -- unused (the stack is unbounded)
 deriving Inhabited
 
@@ -135,6 +140,8 @@ inductive ActEnd
 /-- announce the match of `rule` on the first `len` bytes of `inp` and set up the token -/
 def beginMatch (M : Matcher) (cfg : Cfg) (s : AState) (inp : List UInt8) (len rule : Nat)
     (prefix_ : List UInt8) : AState :=
+  -- %array: the matched text (before any trailing-context split) plus its NUL must fit yytext
+  if cfg.yylmax != 0 && prefix_.length + len ≥ cfg.yylmax then s.fatal "yylmax" else
   let hl := M.headLen rule len inp
   let newPart := inp.take hl
   let text := prefix_ ++ newPart
@@ -143,7 +150,8 @@ def beginMatch (M : Matcher) (cfg : Cfg) (s : AState) (inp : List UInt8) (len ru
   let s := s.setCurBuf { b with pending := inp.drop hl, atBol := atBol }
   let s := { s with text := text, morePrefix := prefix_.length, textValid := true }
   let s := s.addLineno cfg (countNl newPart)
-  s.emit s!"m {rule} {hexBytes text} {s.getLineno cfg} {s.start} {if cfg.bolNeeded then (if atBol then 1 else 0 : Int) else -1}"
+  let shown := cfg.actionOf.getD (rule - 1) rule
+  s.emit s!"m {shown} {hexBytes text} {s.getLineno cfg} {s.start} {if cfg.bolNeeded then (if atBol then 1 else 0 : Int) else -1}"
 
 /-- ops that behave the same inside an action and in top-level code -/
 def commonOp (cfg : Cfg) (s : AState) : Op → Option AState
@@ -172,6 +180,14 @@ def doWrap (s : AState) : AState × Bool :=
   match s.wraps with
   | [] => (s.emit "wrap -1", false)
   | none :: rest => ({ s with wraps := rest }.emit "wrap -1", false)
+  | some 1000000 :: rest =>
+    -- yywrap() pops the buffer stack and says "go on" (include files ended by yywrap)
+    let s := { s with wraps := rest }.emit "wrap -2"
+    match s.cur, s.bstack with
+    | some c, t :: bs =>
+      let s := { s with bufs := s.bufs.modify c fun b => { b with alive := false } }
+      ({ s with cur := some t, bstack := bs, yyin := (s.bufs.getD t {}).file <|> s.yyin }, true)
+    | _, _ => (s, false)
   | some f :: rest =>
     let s := { s with wraps := rest, yyin := some f }.emit s!"wrap {f}"
     -- YY_NEW_FILE: yyrestart(yyin) re-initialises the current buffer over the new source
@@ -320,6 +336,7 @@ def runAlternatives (M : Matcher) (cfg : Cfg) (s : AState) (inp : List UInt8) (p
     let s0 := (s.setCurBuf bufBefore)
     let s0 := if cfg.reentrant then s0 else { s0 with lineno := linenoBefore }
     let s1 := beginMatch M cfg s0 inp len rule prefix_
+    if s1.halted then (s1, .halt) else
     -- the default rule's action (ECHO) is not user code: it takes no script
     let (s2, script) := if rule == cfg.numRules then (s1, []) else s1.nextScript
     let (s3, e) := runAction M cfg { s2 with moreFlag := false } script
@@ -338,6 +355,7 @@ def lexCall (M : Matcher) (cfg : Cfg) : Nat → AState → AState
     match b.pending with
     | [] =>
       -- end of input: yywrap, then the EOF action of the current start condition
+      let s := if cfg.yylmax != 0 && prefix_.length + 1 ≥ cfg.yylmax then s.emit "mayfatal" else s
       let (s, more) := doWrap s
       if more then lexCall M cfg fuel s
       else if cfg.eofScs.contains s.start then
@@ -354,6 +372,11 @@ def lexCall (M : Matcher) (cfg : Cfg) : Nat → AState → AState
       else s.emit "ret 0"
     | inp =>
       let cands := M.cands s.start b.atBol inp
+      -- F28: the generated scanner applies the YYLMAX check to look-ahead text (and to the
+      -- end-of-buffer sentinel) as well; whether that happens depends on the refill points,
+      -- which this model abstracts from — the trace marks the tokens where it may
+      let s := if cfg.yylmax != 0 && prefix_.length + M.scan s.start b.atBol inp + 1 ≥ cfg.yylmax
+               then s.emit "mayfatal" else s
       let lnBefore := if cfg.reentrant then b.lineno else s.lineno
       let (s, e) := runAlternatives M cfg s inp prefix_ b lnBefore cands
       match e with
